@@ -42,7 +42,7 @@ type gateLine struct {
 	Note string     `json:"note"`
 }
 
-var hidOf = map[string]int{"CCR": 1, "CCA": 2, "ULR": 3, "ALL": 4, "oCER": 91, "oCEA": 92, "oDWR": 93, "oiCER": 94, "oiCEA": 95, "oiDWR": 96}
+var hidOf = map[string]int{"CCR": 1, "CCA": 2, "ULR": 3, "ALL": 4, "DWA": 5, "oCER": 91, "oCEA": 92, "oDWR": 93, "oiCER": 94, "oiCEA": 95, "oiDWR": 96}
 
 func registerApp(s *smServer, cfg string) {
 	m := s.SM
@@ -56,6 +56,7 @@ func registerApp(s *smServer, cfg string) {
 		m.HandleFunc("CCR", s.record("CCR"))
 		m.Handle("CCA", s.record("CCA"))
 		m.HandleIdx(diam.CommandIndex{AppID: 16777251, Code: 316, Request: true}, s.record("ULR"))
+		m.HandleFunc("DWA", s.record("DWA"))
 	}
 	if cfg == "idx" {
 		m.HandleIdx(diam.ALL_CMD_INDEX, s.record("ALL"))
@@ -115,6 +116,8 @@ func gateMsg(name string, hbh uint32) []byte {
 		return appMsg(316, 16777251, true, hbh)
 	case "rar":
 		return appMsg(258, 0, true, hbh)
+	case "dwa":
+		return appMsg(280, 0, false, hbh)
 	case "ccr_e":
 		b := appMsg(272, 4, true, hbh)
 		b[4] |= 0x20
